@@ -27,34 +27,56 @@ def main():
             plan = faults.install_sql(rig.storage)
         plan.reset()
         conn = rig.connect("c")
-        out = {"oks": [], "fired": 0, "blocked": False}
+        out = {"oks": [], "fired": 0, "blocked": False, "fired_list": []}
         for ev in spec["prefix"]:
             await conn.cmd(["EVENT", ev])
         await rig.quiesce()
-        if spec.get("record"):
-            plan.record_only()
-        else:
-            plan.arm(spec["ordinal"], spec["action"])
-        n0 = rig.rec.n
-        try:
-            await conn.cmd(["EVENT", spec["event"]], timeout=20)
-            await rig.quiesce(timeout=20)
-        except R.Inconclusive as e:
-            out["blocked"] = "event: %s" % e
-        out["fired"] = plan.fired
-        out["trace"] = [t for t in plan.trace if t[0] == 0]
-        plan.disarm()
-        oks = R.ok_frames(conn, n0)
-        out["oks"] = [f[2:4] for _, f in oks]
-        if not out["blocked"]:
+        if spec.get("multi"):
+            # several faults in ONE process: [(index into rest, ordinal)], rest = remaining history
+            faults_at = {i: k for i, k in spec["multi"]}
             try:
-                for ev in spec.get("rest", []):
+                for i, ev in enumerate(spec.get("rest", [])):
                     if conn.exited:
                         conn = rig.connect()
+                    if i in faults_at:
+                        plan.arm(faults_at[i], "error")
                     await conn.cmd(["EVENT", ev], timeout=20)
+                    await rig.quiesce(timeout=20)
+                    if i in faults_at:
+                        out["fired_list"].append([i, plan.fired])
+                        plan.disarm()
+            except R.Inconclusive as e:
+                out["blocked"] = "multi: %s" % e
+            out["fired"] = sum(f for _, f in out["fired_list"])
+        else:
+            if spec.get("record"):
+                plan.record_only()
+            else:
+                plan.arm(spec["ordinal"], spec["action"])
+            n0 = rig.rec.n
+            events = spec.get("events") or [spec["event"]]
+            try:
+                # a window of events is fed back-to-back (no waiting for the writer in between)
+                for ev in events:
+                    conn.feed(["EVENT", ev])
+                await conn.processed(timeout=20)
                 await rig.quiesce(timeout=20)
             except R.Inconclusive as e:
-                out["blocked"] = "rest: %s" % e
+                out["blocked"] = "event: %s" % e
+            out["fired"] = plan.fired
+            out["trace"] = list(plan.trace)
+            plan.disarm()
+            oks = R.ok_frames(conn, n0)
+            out["oks"] = [f[2:4] for _, f in oks]
+            if not out["blocked"]:
+                try:
+                    for ev in spec.get("rest", []):
+                        if conn.exited:
+                            conn = rig.connect()
+                        await conn.cmd(["EVENT", ev], timeout=20)
+                    await rig.quiesce(timeout=20)
+                except R.Inconclusive as e:
+                    out["blocked"] = "rest: %s" % e
         out["logs"] = [l for l in env.LOGTAP.take() if l.get("exc")][:3]
         await rig.close()
         return out
